@@ -58,6 +58,70 @@ func same(a, b answer, what string) {
 	}
 }
 
+// drain empties a watch channel without blocking and flattens the batches (how events are
+// grouped into batches depends on timing, not on the engine).
+func drain(ch <-chan []*proto.Event) (evs []*proto.Event, closed bool) {
+	for {
+		select {
+		case b, ok := <-ch:
+			if !ok {
+				return evs, true
+			}
+			evs = append(evs, b...)
+		default:
+			return evs, false
+		}
+	}
+}
+
+func sameEvents(a, b []*proto.Event, what string) {
+	zzverif.Assert(len(a) == len(b), what+": number of events")
+	for i := range a {
+		if i >= len(b) {
+			break
+		}
+		zzverif.Assert(a[i].Type == b[i].Type && a[i].Revision == b[i].Revision, what+": event kind and revision")
+		zzverif.Assert((a[i].Kv == nil) == (b[i].Kv == nil), what+": event kv or not")
+		if a[i].Kv != nil && b[i].Kv != nil {
+			zzverif.Assert(zzverif.BytesEq(a[i].Kv.Key, b[i].Kv.Key) && zzverif.BytesEq(a[i].Kv.Value, b[i].Kv.Value) && a[i].Kv.Revision == b[i].Kv.Revision, what+": event kv")
+		}
+	}
+}
+
+// prestate brings every node into the same initial state through the client API (concrete
+// values): 0 empty, 1 /r/a live, 2 /r/a updated, 3 /r/a deleted, 4 /r/a deleted and compacted
+// away, 5 /r/a deleted, compacted and created again. Returns the revision of the last write.
+func prestate(nodes []backend.Backend, sc int) {
+	for _, be := range nodes {
+		if sc == 0 {
+			continue
+		}
+		c, err := be.Create(ctx, &proto.CreateRequest{Key: keys[0], Value: []byte("1")})
+		zzverif.Assert(err == nil && c.Succeeded, "prestate: create")
+		last := c.Header.Revision
+		if sc >= 2 {
+			u, err := be.Update(ctx, &proto.UpdateRequest{Kv: &proto.KeyValue{Key: keys[0], Value: []byte("2"), Revision: last}})
+			zzverif.Assert(err == nil && u.Succeeded, "prestate: update")
+			last = u.Header.Revision
+		}
+		if sc >= 3 {
+			d, err := be.Delete(ctx, &proto.DeleteRequest{Key: keys[0], Revision: last})
+			zzverif.Assert(err == nil && d.Succeeded, "prestate: delete")
+			last = d.Header.Revision
+		}
+		zzverif.WaitIdle()
+		if sc >= 4 {
+			_, err := be.Compact(ctx, last)
+			zzverif.Assert(err == nil, "prestate: compact")
+		}
+		if sc >= 5 {
+			c, err := be.Create(ctx, &proto.CreateRequest{Key: keys[0], Value: []byte("3")})
+			zzverif.Assert(err == nil && c.Succeeded, "prestate: create again")
+		}
+		zzverif.WaitIdle()
+	}
+}
+
 // VerifC12Engines: contract store, in-memory, Badger, TiKV (mock cluster) and the metrics wrapper (over Badger).
 func VerifC12Engines() {
 	bd, err := badgerkv.NewKvStorage(badgerkv.Config{Dir: zzverif.TempDir()})
@@ -67,6 +131,19 @@ func VerifC12Engines() {
 	nodes := []backend.Backend{node(zzmodel.NewStore()), node(memkv.NewKvStorage()), node(bd), node(zzc11.NewMockTiKV()),
 		node(smetrics.NewKvStorage(bd2, zzmodel.NoMetrics{}))}
 	n := zzverif.Param("requests", 3)
+	nsc := zzverif.Param("prestates", 1)
+	sc := 0
+	if nsc > 1 {
+		sc = zzverif.Choose("prestate", nsc)
+	}
+	prestate(nodes, sc)
+	// a watch on every node, registered before the requests: it sees the changes they make
+	var live []<-chan []*proto.Event
+	for _, be := range nodes {
+		ch, err := be.Watch(ctx, "/r/", 0)
+		zzverif.Assert(err == nil, "watch without start revision is accepted")
+		live = append(live, ch)
+	}
 	for i := 0; i < n; i++ {
 		tag := "q" + string(rune('0'+i))
 		kind := zzverif.Choose(tag+".kind", 6)
@@ -131,6 +208,39 @@ func VerifC12Engines() {
 		if kind == 5 {
 			zzverif.Cover("compaction")
 		}
+	}
+	// watch events: the live watches saw the same events on every engine ...
+	var evs [][]*proto.Event
+	for _, ch := range live {
+		e, closed := drain(ch)
+		zzverif.Assert(!closed, "watch of a consumer that keeps up stays open")
+		evs = append(evs, e)
+	}
+	for j := 1; j < len(evs); j++ {
+		sameEvents(evs[0], evs[j], "engine-independent watch events")
+	}
+	if len(evs[0]) > 0 {
+		zzverif.Cover("events")
+	}
+	// ... and so does a watch started afterwards from a symbolic revision (served from the event cache, or refused)
+	s := zzverif.U64("S")
+	zzverif.Assume(s >= 1 && s <= 12)
+	var late [][]*proto.Event
+	var refused []bool
+	for _, be := range nodes {
+		ch, err := be.Watch(ctx, "/r/", s)
+		refused = append(refused, err != nil)
+		if err != nil {
+			late = append(late, nil)
+			continue
+		}
+		zzverif.WaitIdle()
+		e, _ := drain(ch)
+		late = append(late, e)
+	}
+	for j := 1; j < len(late); j++ {
+		zzverif.Assert(refused[0] == refused[j], "engine-independent watch refusal")
+		sameEvents(late[0], late[j], "engine-independent replayed watch events")
 	}
 	zzverif.Cover("done")
 }
